@@ -32,6 +32,7 @@ type vfC13Xfer struct {
 	CfgTail    []byte   `json:"cfg_tail"`
 	CfgCuts    []int    `json:"cfg_cuts"`
 	CfgEarly   bool     `json:"cfg_early"` // the server's config line is delivered without waiting for the forwarded action
+	CfgLate    bool     `json:"cfg_late,omitempty"` // the server answers only after the client has sent everything it has (all of it is held then)
 	XferC      [][]byte `json:"xfer_c"`
 	XferS      [][]byte `json:"xfer_s"`
 	End        string   `json:"end"` // exit_c | fail_c | fail_s | exit_s | ctrlc
@@ -166,8 +167,10 @@ func vfC13Run(cs vfC13Case, res *vfC13Res) string {
 			res.handshaking += len(x.CfgTail)
 		}
 		wg.Add(2)
+		clientFed := make(chan struct{})
 		go func() {
 			defer wg.Done()
+			defer close(clientFed)
 			for _, ch := range vfChunks(clientStream, x.ActCuts) {
 				g.cliIn.feed(ch)
 				vfGap(x, &gi)
@@ -184,6 +187,10 @@ func vfC13Run(cs vfC13Case, res *vfC13Res) string {
 				for !bytes.Contains(g.srvIn.bytes()[len(wantSrv):], []byte("#ACT:")) && time.Now().Before(deadline) {
 					time.Sleep(50 * time.Microsecond)
 				}
+			}
+			if x.CfgLate {
+				<-clientFed
+				time.Sleep(30 * time.Millisecond)
 			}
 			gj := 1
 			for _, ch := range vfChunks(serverStream, x.CfgCuts) {
@@ -495,6 +502,22 @@ func vfGenC13(rt *rapid.T) vfC13Case {
 		}
 		x.ActCuts = vfGenCutsIn(rt, "actcut", 160+len(x.ActTail))
 		x.CfgCuts = vfGenCutsIn(rt, "cfgcut", 100+len(x.CfgTail))
+		// now and then the held traffic arrives in very many small reads (a fast typist's paste through a slow terminal, a chatty
+		// job): more pieces than any fixed-size queue of "a thousand should do" holds
+		if len(x.ActTail) > 30000 && rapid.Bool().Draw(rt, "manypieces_act") {
+			x.CfgLate = true
+			x.CfgEarly = false
+			x.ActCuts = nil
+			for c := 200; c < 160+len(x.ActTail); c += 24 {
+				x.ActCuts = append(x.ActCuts, c)
+			}
+		}
+		if len(x.CfgTail) > 30000 && rapid.Bool().Draw(rt, "manypieces_cfg") {
+			x.CfgCuts = nil
+			for c := 150; c < 100+len(x.CfgTail); c += 24 {
+				x.CfgCuts = append(x.CfgCuts, c)
+			}
+		}
 		x.CfgEarly = rapid.IntRange(0, 3).Draw(rt, "cfgearly") == 0
 		x.XferC = vfGenChunksOf(rt, "xc", 4, 40)
 		x.XferS = vfGenChunksOf(rt, "xs", 4, 40)
